@@ -17,6 +17,7 @@ package fasthttputil
 // that starts after Close returned must fail.
 
 import (
+	"bytes"
 	"encoding/json"
 	"fmt"
 	"io"
@@ -44,10 +45,57 @@ func c33Byte(e, p int) byte {
 	return byte(x>>24) ^ byte(x>>11)
 }
 
-func c33Fill(b []byte, e, from int) {
-	for i := range b {
-		b[i] = c33Byte(e, from+i)
+// the pattern of each direction is computed once and cached (writes of several MiB are replayed)
+var c33PatMu sync.Mutex
+var c33Pat [3][]byte
+
+func c33Pattern(e, from, n int) []byte {
+	c33PatMu.Lock()
+	defer c33PatMu.Unlock()
+	if need := from + n; need > len(c33Pat[e]) {
+		size := 1 << 16
+		for size < need {
+			size *= 2
+		}
+		np := make([]byte, size)
+		old := copy(np, c33Pat[e])
+		for i := old; i < size; i++ {
+			np[i] = c33Byte(e, i)
+		}
+		c33Pat[e] = np
 	}
+	return c33Pat[e][from : from+n : from+n]
+}
+
+func c33Fill(b []byte, e, from int) { copy(b, c33Pattern(e, from, len(b))) }
+
+// what a caller does with its buffer once Write has returned: reuse it
+func c33Scribble(b []byte) {
+	for i := range b {
+		b[i] = 0xA5
+	}
+}
+
+// c33Drain reads, with an expired deadline, everything that is still buffered for end e and
+// returns the number of bytes or a description of the first wrong byte.
+func c33Drain(c net.Conn, e, from int) (int, string) {
+	c.SetReadDeadline(time.Now().Add(-time.Second))
+	buf := make([]byte, 1<<20)
+	total := 0
+	for i := 0; i < 1000; i++ {
+		n, err := c.Read(buf)
+		if n > 0 && !bytes.Equal(buf[:n], c33Pattern(3-e, from+total, n)) {
+			return total, fmt.Sprintf("bytes at stream offset %d.. differ from what the other end wrote there", from+total)
+		}
+		total += n
+		if err != nil {
+			if err != ErrTimeout && err != io.EOF {
+				return total, "drain read: " + err.Error()
+			}
+			return total, ""
+		}
+	}
+	return total, "drain did not end"
 }
 
 func c33ErrClass(err error) string {
@@ -83,8 +131,8 @@ type c33Result struct {
 func c33Replay(pc *PipeConns, ops []c33Op, rng *rand.Rand, progress *atomic.Int32) c33Result {
 	conns := [3]net.Conn{nil, pc.Conn1(), pc.Conn2()}
 	var rdl, wdl [3]bool // a deadline is currently set on that end
-	wbuf := make([]byte, 0, 2048)
-	rbuf := make([]byte, 0, 2048)
+	var wbuf, rbuf []byte
+	var acked, got [3]int // bytes the real Write calls of end e acknowledged / the real Read calls of end e returned
 	for i, op := range ops {
 		progress.Store(int32(i))
 		c := conns[op.E]
@@ -103,9 +151,16 @@ func c33Replay(pc *PipeConns, ops []c33Op, rng *rand.Rand, progress *atomic.Int3
 				c.SetWriteDeadline(time.Time{})
 				wdl[op.E] = false
 			}
+			if cap(wbuf) < op.Arg {
+				wbuf = make([]byte, op.Arg)
+			}
 			wbuf = wbuf[:op.Arg]
 			c33Fill(wbuf, op.E, op.From)
 			n, err := c.Write(wbuf)
+			c33Scribble(wbuf) // Write has returned: the buffer belongs to the caller again
+			if n > 0 {
+				acked[op.E] += n
+			}
 			if n != op.N || !c33In(c33ErrClass(err), op.Errs) {
 				return c33Result{i, fmt.Sprintf("pipe:write:want(%d,%v):got(%d,%s)", op.N, op.Errs, n, c33ErrClass(err)),
 					fmt.Sprintf("Write(%d bytes) on end %d returned (%d, %v), specification: (%d, %v)", op.Arg, op.E, n, err, op.N, op.Errs)}
@@ -118,20 +173,25 @@ func c33Replay(pc *PipeConns, ops []c33Op, rng *rand.Rand, progress *atomic.Int3
 				c.SetReadDeadline(time.Time{})
 				rdl[op.E] = false
 			}
-			rbuf = rbuf[:op.Arg]
-			for j := range rbuf {
-				rbuf[j] = 0xEE
+			if cap(rbuf) < op.Arg {
+				rbuf = make([]byte, op.Arg)
 			}
+			rbuf = rbuf[:op.Arg]
 			n, err := c.Read(rbuf)
+			if n > 0 {
+				got[op.E] += n
+			}
 			if n != op.N || !c33In(c33ErrClass(err), op.Errs) {
 				return c33Result{i, fmt.Sprintf("pipe:read:want(%d,%v):got(%d,%s)", op.N, op.Errs, n, c33ErrClass(err)),
 					fmt.Sprintf("Read(%d bytes) on end %d returned (%d, %v), specification: (%d, %v)", op.Arg, op.E, n, err, op.N, op.Errs)}
 			}
-			for j := 0; j < n; j++ {
-				if rbuf[j] != c33Byte(3-op.E, op.From+j) {
-					return c33Result{i, "pipe:read:bytes", fmt.Sprintf("Read on end %d: byte %d of the call is %#x, the stream written by the other end has %#x at offset %d",
-						op.E, j, rbuf[j], c33Byte(3-op.E, op.From+j), op.From+j)}
+			if n > 0 && !bytes.Equal(rbuf[:n], c33Pattern(3-op.E, op.From, n)) {
+				j := 0
+				for rbuf[j] == c33Byte(3-op.E, op.From+j) {
+					j++
 				}
+				return c33Result{i, "pipe:read:bytes", fmt.Sprintf("Read on end %d: byte %d of the call is %#x, the stream written by the other end has %#x at offset %d",
+					op.E, j, rbuf[j], c33Byte(3-op.E, op.From+j), op.From+j)}
 			}
 		case "c":
 			var err error
@@ -145,6 +205,17 @@ func c33Replay(pc *PipeConns, ops []c33Op, rng *rand.Rand, progress *atomic.Int3
 			}
 		default:
 			return c33Result{i, "infra", "unknown op " + op.Op}
+		}
+	}
+	// the Write contract (AckInv): what can be read at an end, in total, is exactly what the other
+	// end's Write calls acknowledged -- a Write that reported 0 bytes must not have queued anything
+	for e := 1; e <= 2; e++ {
+		n, bad := c33Drain(conns[e], e, got[e])
+		if bad != "" {
+			return c33Result{len(ops) - 1, "pipe:drain:bytes", fmt.Sprintf("end %d after the last call: %s", e, bad)}
+		}
+		if got[e]+n != acked[3-e] {
+			return c33Result{len(ops) - 1, "pipe:delivered-vs-acknowledged", fmt.Sprintf("end %d could read %d bytes in total, the Write calls of end %d returned %d bytes in total", e, got[e]+n, 3-e, acked[3-e])}
 		}
 	}
 	return c33Result{step: -1}
@@ -245,7 +316,7 @@ func c33StreamOne(rng *rand.Rand) (key, detail string) {
 		}
 		vmu.Unlock()
 	}
-	sizes := []int{0, 1, 2, 3, 7, 64, 1023, 1024, 1025, 2000, 4096, 20000}
+	sizes := []int{0, 1, 2, 3, 7, 64, 1023, 1024, 1025, 2000, 4096, 20000, 65536, 65537, 200000}
 	totals := [3]int{0, 1 + rng.Intn(60), 1 + rng.Intn(60)} // writes per direction
 	closeAt := 1 + rng.Intn(40)
 	useDl := rng.Intn(2) == 0
@@ -283,7 +354,8 @@ func c33StreamOne(rng *rand.Rand) (key, detail string) {
 						fail("stream:write-after-close-succeeded", fmt.Sprintf("direction %d: Write of %d bytes started after Close had returned and succeeded", e, n))
 						return
 					}
-					d.written = append(d.written, buf...)
+					d.written = append(d.written, c33Pattern(e, pos, n)...)
+					c33Scribble(buf) // the caller reuses its buffer as soon as Write has returned
 					pos += n
 				case err == ErrTimeout && m == 0:
 					if afterClose {
